@@ -1009,6 +1009,19 @@ def run(ctx):
         nseq = ctx.n(16, 96)
         nseeds = ctx.n(4, 16)
         histories = []
+        # fixed programs every run analyses (alone, twice, in both modes, under every hash seed): shapes whose variable order / text is
+        # decided by a set somewhere unless the code takes care
+        ALWAYS = [
+            "int f(int n, int done, int ok){ while (n > 0) { done = false; ok = true; n = n - 1; } }",
+            "int f(int n, int N, int a, int A){ while (n > 0) { a = A + N; N = a + n; } A = n; }",
+            "int f(int x, int y, int z, int w){ log4(x, y, z, w); if (x > 0) { y = g(z, w, x); } return h(x, y, z); }",
+            "int f(int a, int b, int c, int d, int e){ while (a > 0) { if (b > 0) { c = d + e; } else { e = c + d; } d = true; b = false; } }",
+        ]
+        fixed = []
+        for src_ in ALWAYS:
+            for kind_, strict_ in (("F", False), ("L", False), ("F", True), ("L", True), ("F", False)):
+                fixed.append({"label": "always", "src": src_, "kind": kind_, "fin": False, "strict": strict_, "fam": "gen"})
+        histories.append({"steps": fixed, "instrument": False, "hashseed": 0})
         for s in range(nseq):
             length = ctx.rng.randrange(ctx.n(6, 8), ctx.n(15, 30))
             histories.append({"steps": make_history(ctx.rng, pool, length), "instrument": (s % 2 == 0), "hashseed": s % nseeds})
